@@ -76,6 +76,8 @@ def ev(n, env, ext=None):
     if op == "ite":
         return ev(a[1], env, ext) if ev(a[0], env, ext) else ev(a[2], env, ext)
     x = ev(a[0], env, ext)
+    if op == "popc":
+        return bin(x).count("1") & m
     if op == "not":
         return ~x & m
     if op == "neg":
@@ -119,6 +121,14 @@ def ev(n, env, ext=None):
         return sx(x, a[0].w) < sx(y, a[0].w)
     if op == "sle":
         return sx(x, a[0].w) <= sx(y, a[0].w)
+    if op == "udiv":
+        return (x // y) & m if y else 0
+    if op in ("rotl", "rotr"):
+        ww = a[0].w
+        k = y % ww
+        if op == "rotr":
+            k = (ww - k) % ww
+        return ((x << k) | (x >> ((ww - k) % ww if k else 0))) & ((1 << ww) - 1) if k else x
     raise Untranslatable(f"IR op {op}")
 
 
@@ -174,6 +184,16 @@ def lean(n, ext_names=None):
         return f"({(ext_names or {}).get(n.k, n.k)} {L(0)})"
     if op == "ctz":
         return f"((DynasmVerif.A64Imm.W{a[0].w}.ctz {L(0)}).zeroExtend {w})"
+    if op == "popc":
+        return f"((DynasmVerif.A64Imm.L{a[0].w}.popc {L(0)}).zeroExtend {w})"
+    if op == "rotl":
+        return f"(DynasmVerif.A64Imm.L{a[0].w}.rotl {L(0)} ({L(1)}.truncate 8))"
+    if op == "rotr":
+        if a[1].op == "const" and a[1].k == 1:
+            return f"(DynasmVerif.A64Imm.L{a[0].w}.rotr1 {L(0)})"
+        raise Untranslatable("rotate_right by a variable amount")
+    if op == "udiv":
+        return f"({L(0)} / {L(1)})"
     sym = {"and": "&&&", "or": "|||", "xor": "^^^", "add": "+", "sub": "-", "mul": "*"}
     if op in sym:
         return f"({L(0)} {sym[op]} {L(1)})"
